@@ -52,6 +52,7 @@ type repoUnderTest struct {
 	nextId  string
 	closeFn func()
 	lastArg *def.TaskUpdateParam // the parameter value actually handed to the repository by the last call
+	midCancel context.CancelFunc // ctx flag "2": cancels the context of the call in flight (armed on the clock's Now)
 }
 
 func newRepoUnderTest(impl string, scratch string) (*repoUnderTest, error) {
@@ -156,11 +157,32 @@ func ctxOf(c string) context.Context {
 	return context.Background()
 }
 
+// opCtx: the context of one call. "1" = cancelled before the call; "2" = cancelled DURING the call, at the first clock
+// read the implementation makes (the in-memory repository looks at the context on entry only and must then complete
+// the operation and report success; the SQL repository's statement then fails without effect — either is fine, an
+// error together with an effect is not: C01); anything else = live.
+func (u *repoUnderTest) opCtx(flag string) context.Context {
+	if flag != "2" || u.clk == nil {
+		return ctxOf(flag)
+	}
+	ctx, cancel := context.WithCancel(context.Background())
+	u.clk.OnNow = func() { cancel() }
+	u.midCancel = cancel
+	return ctx
+}
+
 // applyOp executes one request line on u and returns the response text (after "->").
 func (u *repoUnderTest) applyOp(tok []string) (resp string, returned []def.Task) {
 	defer func() {
 		if r := recover(); r != nil {
 			resp = "err panic"
+		}
+	}()
+	defer func() {
+		if u.midCancel != nil {
+			u.clk.OnNow = nil
+			u.midCancel()
+			u.midCancel = nil
 		}
 	}()
 	setNow := func(s string) {
@@ -179,13 +201,13 @@ func (u *repoUnderTest) applyOp(tok []string) (resp string, returned []def.Task)
 			return "err parse", nil
 		}
 		u.lastArg = &p
-		t, err := u.repo.AddTask(ctxOf(tok[1]), p)
+		t, err := u.repo.AddTask(u.opCtx(tok[1]), p)
 		if err != nil {
 			return proto.Res(err), nil
 		}
 		return "ok " + proto.Task(t), []def.Task{t}
 	case "get":
-		t, err := u.repo.GetById(ctxOf(tok[1]), unId(tok[2]))
+		t, err := u.repo.GetById(u.opCtx(tok[1]), unId(tok[2]))
 		if err != nil {
 			return proto.Res(err), nil
 		}
@@ -197,20 +219,20 @@ func (u *repoUnderTest) applyOp(tok []string) (resp string, returned []def.Task)
 			return "err parse", nil
 		}
 		u.lastArg = &p
-		return proto.Res(u.repo.UpdateById(ctxOf(tok[1]), unId(tok[3]), p)), nil
+		return proto.Res(u.repo.UpdateById(u.opCtx(tok[1]), unId(tok[3]), p)), nil
 	case "can":
 		setNow(tok[2])
-		return proto.Res(u.repo.Cancel(ctxOf(tok[1]), unId(tok[3]))), nil
+		return proto.Res(u.repo.Cancel(u.opCtx(tok[1]), unId(tok[3]))), nil
 	case "dis":
 		setNow(tok[2])
-		return proto.Res(u.repo.MarkAsDispatched(ctxOf(tok[1]), unId(tok[3]))), nil
+		return proto.Res(u.repo.MarkAsDispatched(u.opCtx(tok[1]), unId(tok[3]))), nil
 	case "don":
 		setNow(tok[2])
 		var werr error
 		if tok[4] != "_" {
 			werr = errors.New(unId(tok[4]))
 		}
-		return proto.Res(u.repo.MarkAsDone(ctxOf(tok[1]), unId(tok[3]), werr)), nil
+		return proto.Res(u.repo.MarkAsDone(u.opCtx(tok[1]), unId(tok[3]), werr)), nil
 	case "fnd":
 		off, _ := strconv.Atoi(tok[2])
 		lim, _ := strconv.Atoi(tok[3])
@@ -218,13 +240,13 @@ func (u *repoUnderTest) applyOp(tok []string) (resp string, returned []def.Task)
 		if err != nil {
 			return "err parse", nil
 		}
-		ts, err := u.repo.Find(ctxOf(tok[1]), q, off, lim)
+		ts, err := u.repo.Find(u.opCtx(tok[1]), q, off, lim)
 		if err != nil {
 			return proto.Res(err), nil
 		}
 		return "ok " + proto.Tasks(ts), ts
 	case "nxt":
-		t, err := u.repo.GetNext(ctxOf(tok[1]))
+		t, err := u.repo.GetNext(u.opCtx(tok[1]))
 		if err != nil {
 			return proto.Res(err), nil
 		}
@@ -237,11 +259,11 @@ func (u *repoUnderTest) applyOp(tok []string) (resp string, returned []def.Task)
 		var err error
 		switch tok[0] {
 		case "rev":
-			err = u.rec.RevertDispatched(ctxOf(tok[1]))
+			err = u.rec.RevertDispatched(u.opCtx(tok[1]))
 		case "cdp":
-			err = u.rec.CancelDispatched(ctxOf(tok[1]))
+			err = u.rec.CancelDispatched(u.opCtx(tok[1]))
 		case "del":
-			err = u.rec.DeleteEnded(ctxOf(tok[1]), false, -1)
+			err = u.rec.DeleteEnded(u.opCtx(tok[1]), false, -1)
 		}
 		return proto.Res(err), nil
 	}
@@ -751,6 +773,9 @@ func (g *repoGen) target(issued []string) string {
 func (g *repoGen) ctx() string {
 	if g.r.Chance(1, 20) {
 		return "1"
+	}
+	if g.r.Chance(1, 25) {
+		return "2" // cancelled while the call is running
 	}
 	return "0"
 }
